@@ -676,10 +676,10 @@ def zero_element_header(rng: Any) -> str:
 
 def run(ctx: Any) -> None:
     rng = ctx.rng
-    n_grammar = ctx.budget(4000, 80000)
-    n_mut = ctx.budget(2000, 40000)
-    n_arb = ctx.budget(2500, 50000)
-    n_inject = ctx.budget(2000, 40000)
+    n_grammar = ctx.budget(6000, 120000)
+    n_mut = ctx.budget(3000, 60000)
+    n_arb = ctx.budget(5000, 100000)
+    n_inject = ctx.budget(3000, 60000)
     n_small = ctx.budget(1200, 20000)
     n_wire = ctx.budget(200, 3000)
 
